@@ -993,7 +993,7 @@ pub fn eval_expansion(env: &Env, q: &Q, d: &DocView) -> T {
         let mut distinct: Vec<String> = toks.iter().map(|t| t.0.clone()).collect();
         distinct.dedup();
         if toks.len() != 1 {
-          return T { lo: false, hi: true };
+          return T { lo: false, hi: !asis.is_empty() };
         }
         let p = &toks[0].0;
         T::b(asis.iter().any(|t| t.starts_with(p.as_str()) && !t.is_empty()))
@@ -1008,7 +1008,7 @@ pub fn eval_expansion(env: &Env, q: &Q, d: &DocView) -> T {
       if env.sch.is_text(field) {
         let mut pat = norm_pattern(env.sch, field, value);
         match pattern_mode(env.sch, env.an, field, value) {
-          PatMode::Ambiguous => return T { lo: false, hi: true },
+          PatMode::Ambiguous => return T { lo: false, hi: !asis.is_empty() },
           PatMode::Collapsed(t) => {
             if env.emu_collapse || !value.chars().any(|c| c == '*' || c == '?') {
               pat = t;
@@ -1027,7 +1027,7 @@ pub fn eval_expansion(env: &Env, q: &Q, d: &DocView) -> T {
       let Some((asis, low)) = expansion_tokens(env, field, d) else { return FF };
       if env.sch.is_text(field) {
         match effective_regex_pattern(env.sch, env.an, field, re, env.emu_collapse) {
-          EffPat::Ambiguous => T { lo: false, hi: true },
+          EffPat::Ambiguous => T { lo: false, hi: !asis.is_empty() },
           EffPat::Literal(s) => T::b(asis.iter().any(|t| *t == s)),
           EffPat::Re(r) => {
             let run = if env.emu_prefix { literal_run(&re_string(&r)) } else { String::new() };
@@ -1110,25 +1110,22 @@ pub fn eval(env: &Env, q: &Q, d: &DocView) -> T {
   }
 }
 
-/// does the document possibly contain any positive (scoring) term of the query?
-pub fn scored_any_hi(env: &Env, q: &Q, d: &DocView, scoring: bool) -> bool {
-  if !scoring {
-    return false;
-  }
+/// does the document contain any positive (scoring) term of the query? (three-valued)
+pub fn scored_any(env: &Env, q: &Q, d: &DocView) -> T {
   match q {
-    Q::Term { field, value, .. } => term_on_field(env, field, value, d).hi,
-    Q::Prefix { .. } | Q::Wildcard { .. } | Q::Regex { .. } => eval_expansion(env, q, d).hi,
+    Q::Term { field, value, .. } => term_on_field(env, field, value, d),
+    Q::Prefix { .. } | Q::Wildcard { .. } | Q::Regex { .. } => eval_expansion(env, q, d),
     Q::Qs { parts, fields } => {
       let base: Vec<String> = fields.clone().unwrap_or_else(|| env.default_fields.clone());
-      parts.iter().any(|p| match p {
-        QsPart::Term(f, w) => qs_targets(env, f, &base).iter().any(|x| term_on_field(env, x, w, d).hi),
-        _ => false,
+      parts.iter().fold(FF, |a, p| match p {
+        QsPart::Term(f, w) => qs_targets(env, f, &base).iter().fold(a, |b, x| b.or(term_on_field(env, x, w, d))),
+        _ => a,
       })
     }
-    Q::Mm { words, fields, .. } => words.iter().any(|w| fields.iter().any(|f| term_on_field(env, f, w, d).hi)),
-    Q::Bool { must, should, .. } => must.iter().chain(should.iter()).any(|c| scored_any_hi(env, c, d, true)),
-    Q::DisMax { queries, .. } => queries.iter().any(|c| scored_any_hi(env, c, d, true)),
-    Q::Func { query, .. } | Q::Script { query, .. } => scored_any_hi(env, query, d, true),
-    _ => false,
+    Q::Mm { words, fields, .. } => words.iter().fold(FF, |a, w| fields.iter().fold(a, |b, f| b.or(term_on_field(env, f, w, d)))),
+    Q::Bool { must, should, .. } => must.iter().chain(should.iter()).fold(FF, |a, c| a.or(scored_any(env, c, d))),
+    Q::DisMax { queries, .. } => queries.iter().fold(FF, |a, c| a.or(scored_any(env, c, d))),
+    Q::Func { query, .. } | Q::Script { query, .. } => scored_any(env, query, d),
+    _ => FF,
   }
 }
